@@ -116,7 +116,11 @@ fn build_rec_uncached(seed: u64, seq: u64, shape: &str, pad: usize) -> Option<En
     loop {
         let mut b = Enr::builder();
         b.seq(seq);
-        if shape.contains('4') {
+        if shape.contains('s') {
+            // one /24 shared by all such records (IP-diversity limits)
+            b.ip4(Ipv4Addr::new(10, 250, 250, (seed % 250 + 1) as u8));
+            b.udp4(9000 + (seed % 500) as u16);
+        } else if shape.contains('4') {
             let (ip, port) = ip4_of(seed, alt);
             b.ip4(ip);
             b.udp4(port);
@@ -360,6 +364,8 @@ pub struct Inst {
     pub events: mpsc::Receiver<Event>,
     /// the application does not read its event stream for a while (the bounded stream overflows)
     pub events_paused: bool,
+    /// the node was configured with `ip_limit` (at most 2 per bucket / 10 per table of one /24)
+    pub ip_limit: bool,
     pub local_id: [u8; 32],
     pub local_seed: u64,
     pub mode: IpMode,
@@ -422,6 +428,10 @@ impl Inst {
         if !enr_update {
             cb.disable_enr_update();
         }
+        // local identities k…999 run with the IP-diversity limits of the routing table
+        if seed % 1000 == 999 {
+            cb.ip_limit();
+        }
         // every third local identity bans for ever (`ban_duration = None`), the others for an hour
         if seed % 3 == 0 {
             cb.ban_duration(None);
@@ -440,6 +450,7 @@ impl Inst {
             hout,
             events,
             events_paused: false,
+            ip_limit: seed % 1000 == 999,
             local_id,
             local_seed: seed,
             mode,
@@ -849,6 +860,31 @@ impl ServiceRunner {
         for b in inst.prev.values() {
             for n in b.nodes.iter().chain(b.pending.iter()) {
                 prev_vals.insert(n.id, n.enr.clone());
+            }
+        }
+        if inst.ip_limit {
+            // C16 through the service: whatever path changed the table, at most 2 nodes per bucket and
+            // 10 per table share a /24 (pending nodes count for the table)
+            let mut table: HashMap<[u8; 3], usize> = HashMap::new();
+            for (i, b) in &snap {
+                let mut bucket: HashMap<[u8; 3], usize> = HashMap::new();
+                for n in b.nodes.iter() {
+                    if let Some(ip) = n.enr.ip4() { let o = ip.octets(); *bucket.entry([o[0], o[1], o[2]]).or_insert(0) += 1; }
+                }
+                for n in b.nodes.iter().chain(b.pending.iter()) {
+                    if let Some(ip) = n.enr.ip4() { let o = ip.octets(); *table.entry([o[0], o[1], o[2]]).or_insert(0) += 1; }
+                }
+                for (sn, c) in bucket {
+                    if c > 2 {
+                        out.push(format!("!MON C16 bucket-subnet-limit-exceeded-through-the-service bucket={} subnet={:?} n={} op={}", i, sn, c, op));
+                    }
+                }
+            }
+            for (sn, c) in table {
+                if c > 10 {
+                    out.push(format!("!MON C16 table-subnet-limit-exceeded-through-the-service subnet={:?} n={} op={}", sn, c, op));
+                }
+                if c >= 10 { stats.bump("s.c16.table-subnet-saturated"); }
             }
         }
         let admits = op == "sest" || op == "sadd";
@@ -2440,8 +2476,73 @@ fn gen_c17(rng: &mut Rng, ops: &mut Vec<String>, stats: &mut Stats) {
     ops.push("slocal A".into());
 }
 
+/// C16 through the service: a node with `ip_limit`, many peers of one /24 arriving through sessions,
+/// explicit adds, lookups and record updates announced by PING / answered by FINDNODE[0].
+fn gen_c16(rng: &mut Rng, ops: &mut Vec<String>, stats: &mut Stats) {
+    stats.bump("gen.c16.service");
+    // local identities whose seed ends in 999 are configured with ip_limit
+    let a = 999 + 1000 * rng.range(0, 30);
+    ops.push(format!("snew A k{} 1 4 0 ip4 all 16 16 0", a));
+    let local_id = id_of_seed(a);
+    // two peers of the shared /24 in each of several buckets, then more: the table takes ten
+    let mut shared: Vec<u64> = Vec::new();
+    let mut others: Vec<u64> = Vec::new();
+    for d in [256u64, 255, 254, 253, 252, 251, 250] {
+        for _ in 0..2 {
+            if let Some(sd) = mine(rng.below(1 << 30), |id| dist(&local_id, id) == d) {
+                shared.push(sd);
+            }
+            if rng.chance(1, 2) {
+                if let Some(sd) = mine(rng.below(1 << 30), |id| dist(&local_id, id) == d) {
+                    others.push(sd);
+                }
+            }
+        }
+    }
+    // nodes of other subnets first (they will announce records of the shared /24 later)
+    for sd in &others {
+        ops.push(format!("sest A k{}:1:4:0 = {}", sd, if rng.chance(1, 2) { "o" } else { "i" }));
+    }
+    for sd in &shared {
+        if rng.chance(1, 4) {
+            ops.push(format!("sadd A k{}:1:s:0", sd));
+        } else {
+            ops.push(format!("sest A k{}:1:s:0 = {}", sd, if rng.chance(1, 2) { "o" } else { "i" }));
+        }
+    }
+    for _ in 0..rng.range(6, 16) {
+        if others.is_empty() { break; }
+        let sd = others[rng.below(others.len() as u64) as usize];
+        match rng.below(4) {
+            0 => {
+                // the node announces a newer record with a PING, the service fetches it
+                ops.push(format!("sreq A k{} {} {} ping {}", sd, peer_addr(sd, "ip4"), rid_tok(rng), rng.range(2, 4)));
+                ops.push(format!("sresp A #e ok nodes 1 @own:{}:s", rng.pick(&["1", "2"])));
+            }
+            1 => ops.push(format!("sest A k{}:{}:s:0 {} {}", sd, rng.range(2, 4), peer_addr(sd, "ip4"), if rng.chance(1, 2) { "o" } else { "i" })),
+            2 => ops.push(format!("sadd A k{}:{}:s:0", sd, rng.range(2, 4))),
+            _ => {
+                // a lookup answer carries newer records of known nodes
+                ops.push(format!("squery A {}", hex::encode(flip_target(&id_of_seed(sd), 256, rng))));
+                let mut items: Vec<String> = Vec::new();
+                for _ in 0..rng.range(1, 4) {
+                    let q = others[rng.below(others.len() as u64) as usize];
+                    items.push(format!("k{}:{}:s:0", q, rng.range(2, 5)));
+                }
+                ops.push(format!("sresp A #q ok nodes 1 {}", items.join(",")));
+                ops.push("sfail A #q".into());
+            }
+        }
+    }
+    ops.push("stable A".into());
+}
+
 pub fn gen_case(rng: &mut Rng, tier: &str, profile: &str, stats: &mut Stats) -> Vec<String> {
     let mut ops = Vec::new();
+    if profile == "C16" {
+        gen_c16(rng, &mut ops, stats);
+        return ops;
+    }
     let p = match profile {
         "C11" | "C12" | "C14" | "C17" => profile,
         // C09 / C10 (service half): lookups driven through the real service
